@@ -14,7 +14,7 @@ import (
 
 // Op is one client operation of a history.
 type Op struct {
-	Kind string `json:"k"` // New Get GetCtx Tagged TaggedCtx Getter GetterCtx MustGetter MustGetterCtx GetParam OvParam OvSvc SetEnv UnsetEnv Arm
+	Kind string `json:"k"` // New Get GetCtx Tagged TaggedCtx Getter GetterCtx MustGetter MustGetterCtx GetParam OvParam OvSvc SetEnv UnsetEnv Arm Cancel
 	Name string `json:"n,omitempty"`
 	Ctx  int    `json:"c,omitempty"`
 	// OvParam: VKind value|param|provider ; V / VI the value ; OvSvc: VI = marker
@@ -36,6 +36,8 @@ func (o Op) String() string {
 		return fmt.Sprintf("SetEnv(%s=%s)", o.Name, o.V)
 	case "Arm":
 		return fmt.Sprintf("Arm(%s,%d)", o.Name, o.Nth)
+	case "Cancel":
+		return fmt.Sprintf("Cancel(ctx%d)", o.Ctx)
 	}
 	return fmt.Sprintf("%s(%s)", o.Kind, o.Name)
 }
@@ -69,6 +71,7 @@ type OpResult struct {
 	Return int64  `json:"ret"`
 	Err    string `json:"err,omitempty"`
 	Panic  string `json:"panic,omitempty"`
+	Events int    `json:"events,omitempty"` // fixture events (constructions, calls, functions) recorded during the operation
 	raw    any
 	Val    *Desc `json:"val,omitempty"`
 }
@@ -128,10 +131,12 @@ func callMethod(c Container, name string, args ...any) (res any, err error, ok b
 func (s *Session) Exec(task, idx int, op Op) (r OpResult) {
 	r = OpResult{Task: task, Index: idx, Op: op}
 	r.Invoke = sched.Now()
+	ev0 := sched.EventCount()
 	defer func() {
 		if p := recover(); p != nil {
 			r.Panic = fmt.Sprint(p)
 		}
+		r.Events = sched.EventCount() - ev0
 		r.Return = sched.Now()
 	}()
 	var (
@@ -203,6 +208,8 @@ func (s *Session) Exec(task, idx int, op Op) (r OpResult) {
 		os.Unsetenv(op.Name)
 	case "Arm":
 		fx.Arm(op.Name, op.Nth)
+	case "Cancel":
+		s.cancels[op.Ctx%len(s.cancels)]()
 	}
 	if err != nil {
 		r.Err = err.Error()
